@@ -106,6 +106,14 @@ Theorem C04_parse_reject_def : forall d o t, wf_defn d -> gen d o = Built t -> f
 Proof. exact parse_reject_def. Qed.
 (* "every enum definition genum accepts": the generator does accept every well-formed definition without
    traits (for definitions with traits acceptance is observed by the farm, see the notes) *)
+(* … and, under every option set, every well-formed definition without trait cells, without reserved names and
+   (with -caseInsensitive) without names differing only by case *)
+Theorem C04_accepts_nocells : forall d o, wf_defn d -> d_consts d <> [] ->
+  existsb (fun c => reserved_name o (c_name c)) (d_consts d) = false ->
+  (o_ci o = true -> NoDup (map (fun c => to_lower (c_name c)) (d_consts d))) ->
+  forallb (fun c => Nat.eqb (length (c_cells c)) 0) (d_consts d) = true ->
+  exists t, gen d o = Built t.
+Proof. exact gen_total_nocells. Qed.
 Theorem C04_accepts_notraits : forall d o, wf_defn d -> d_consts d <> [] -> o_notraits o = true -> o_ci o = false ->
   existsb (fun c => reserved_name o (c_name c)) (d_consts d) = false ->
   exists t, gen d o = Built t.
@@ -193,6 +201,7 @@ Print Assumptions C04_alias_refuted.
 Print Assumptions C04_trait_const_sound.
 Print Assumptions C04_parse_reject_def.
 Print Assumptions C04_accepts_notraits.
+Print Assumptions C04_accepts_nocells.
 Print Assumptions C04_reserved_name_rejected.
 Print Assumptions C04_reserved_name_orig_refuted.
 Print Assumptions C04_sort_any.
